@@ -30,6 +30,7 @@ reserved-looking names and the numerals re-spelled with leading zeros.
 import ast
 import inspect
 import random
+import re
 import sys
 
 import s_compiler_common as K
@@ -384,8 +385,12 @@ def run(seed, count):
                 break
     # shortest failing inputs first: they are the ones a human wants to read
     failures.sort(key=lambda f: len(f["scenario"]["text"]))
+    classes = {}
+    for f in failures:
+        k = re.sub(r"line [0-9]+", "line N", f["detail"])[:110]
+        classes[k] = classes.get(k, 0) + 1
     return K.report(len(results), len(accepted_texts), RULE, failures, samples,
-                    stats={"accepted": sum(1 for r in results if r["accepted"]),
+                    stats={"failure_classes": classes, "accepted": sum(1 for r in results if r["accepted"]),
                            "rejected_by_exception": rejected,
                            "inputs": {"corpus": sum(1 for r in results if r["origin"].startswith("corpus")),
                                       "shape": sum(1 for r in results if r["origin"].startswith("shape")),
